@@ -122,6 +122,15 @@ impl GenerationPass for AvailableValuePass {
         while changed {
             changed = false;
             for node in cfg.iter() {
+                // A node that has predecessors, none of which has been visited
+                // yet, has nothing to start from. Treating it as "no values
+                // known" lets that empty map travel around loops and come
+                // back, so that values grow and shrink forever. Wait until one
+                // of its predecessors has been visited instead.
+                if !node.prevs().is_empty() && !node.prevs().iter().any(|x| visited.contains(x)) {
+                    continue;
+                }
+
                 // in[n] = AND out[p] for all p in prev[n]
                 let in_reg_n = node
                     .prevs()
